@@ -24,9 +24,10 @@ func blameCorrespondenceRsEc(r *Run, rng *rand.Rand, thorough bool) {
 	tweaks := []tw{{"", "", "", 0},
 		{"DGRound2Message1", "dlnproof_1", "+1", 5}, {"DGRound2Message1", "dlnproof_2", "+1", 0}, {"DGRound2Message1", "modProof", "+1", 3},
 		{"DGRound2Message1", "modProof", "drop-field", 0}, {"DGRound2Message1", "h1", "other", 0}, {"DGRound2Message1", "h2", "other", 0},
-		{"DGRound2Message1", "paillier_n", "+1", 0}, {"DGRound2Message1", "n_tilde", "g:shl8", 0}}
+		{"DGRound2Message1", "paillier_n", "+1", 0}, {"DGRound2Message1", "n_tilde", "g:shl8", 0},
+		{"DGRound4Message1", "facProof", "+1", 6}, {"DGRound4Message1", "facProof", "drop-field", 0}, {"DGRound4Message1", "facProof", "+1", 0}}
 	if !thorough {
-		tweaks = []tw{tweaks[1+int(r.Seed)%3], tweaks[4+int(r.Seed)%2], tweaks[6+int(r.Seed)%3]}
+		tweaks = []tw{tweaks[1+int(r.Seed)%3], tweaks[4+int(r.Seed)%5], tweaks[9+int(r.Seed)%3]}
 	}
 	nOld := 3
 	for ti, t := range tweaks {
@@ -134,6 +135,46 @@ func blameCorrespondenceRsEc(r *Run, rng *rand.Rand, thorough bool) {
 			}
 			if cmp != goRes {
 				r.fail(Failure{Kind: "diff", Key: "blame/ecdsa-resharing-round4-params/" + t.field + "/" + t.kind, Op: line, Go: goRes, Lean: lean})
+			}
+			// round 5: the other new members' no-small-factor proofs, made for this member
+			if nd.Err != nil && nd.Err.Round() < 5 {
+				continue
+			}
+			facs := map[int]*ecdsaresharing.DGRound4Message1{}
+			for _, d := range net.Delivered {
+				if d.To != i {
+					continue
+				}
+				if c, ok := d.Msg.(tss.ParsedMessage).Content().(*ecdsaresharing.DGRound4Message1); ok {
+					facs[d.From-nOld] = c
+				}
+			}
+			if len(facs) != 2 || (nd.Err == nil && len(nd.Ends) == 0) {
+				continue
+			}
+			var fparts []string
+			for j := 0; j < 3; j++ {
+				if j == i-nOld {
+					continue
+				}
+				fparts = append(fparts, fmt.Sprintf("%d/%s/%s", j, natHex(msgs[j].GetPaillierN()), bytesListHex(facs[j].GetFacProof())))
+			}
+			own := msgs[i-nOld]
+			go5 := "ok pass"
+			if nd.Err != nil {
+				go5 = "ok fail culprits=" + strings.ReplaceAll(culpritSetNew(net, nd.Err, nOld), " ", "")
+			}
+			lean5 := r.model.Call("ec_rs_round5_fac", "0", fmt.Sprint(i-nOld), eBytes(ssid), natHex(own.GetNTilde()), natHex(own.GetH1()), natHex(own.GetH2()), strings.Join(fparts, ";"))
+			line5 := fmt.Sprintf("ec_rs_round5_fac new member %d (%s.%s %s by new member %d)", i-nOld, t.typ, t.field, t.kind, dev-nOld)
+			r.count("ec_rs_round5_fac", go5, true, line5)
+			r.Dist["ec_rs_round5_fac/"+strings.Fields(go5)[1]]++
+			r.Traces++
+			cmp5 := lean5
+			if f := strings.Fields(cmp5); len(f) >= 3 && f[1] == "fail" {
+				cmp5 = strings.Join(f[:3], " ")
+			}
+			if cmp5 != go5 {
+				r.fail(Failure{Kind: "diff", Key: "blame/ecdsa-resharing-round5-fac/" + t.field + "/" + t.kind, Op: line5, Go: go5, Lean: lean5})
 			}
 		}
 	}
